@@ -302,7 +302,7 @@ Proof.
       * intros C. destruct (Hcl C) as [Hf _]. auto.
 Qed.
 
-Lemma chk_all_OTimer c m d : chk_all c m (OTimer d) = ""%string.
+Lemma chk_all_OTimer c m d f : chk_all c m (OTimer d f) = ""%string.
 Proof. reflexivity. Qed.
 
 Lemma phase_updates_ok c rep next now sl sel m rep' next' sl' o :
@@ -319,13 +319,13 @@ Proof.
     - injection Ex as <- <-. cbn. auto.
     - eapply xsteps_ok; eassumption. }
   destruct Hx as (Hc2 & Hi2 & Ho2 & Hs2).
-  assert (Hcons : exists n, consume n rep x1 = (rep', sl') /\ o = OTimer (next - now) :: o2).
+  assert (Hcons : exists n f, consume n rep x1 = (rep', sl') /\ o = OTimer (next - now) f :: o2).
   { destruct (recv x1) as [[| |[d st]] x2] eqn:Er.
-    - injection Hp as <- <- <- <-. exists 1%nat. cbn [consume]. rewrite Er. auto.
-    - injection Hp as <- <- <- <-. exists 1%nat. cbn [consume]. rewrite Er. auto.
+    - injection Hp as <- <- <- <-. exists 1%nat. eexists. cbn [consume]. rewrite Er. auto.
+    - injection Hp as <- <- <- <-. exists 1%nat. eexists. cbn [consume]. rewrite Er. auto.
     - destruct (consume (consume_fuel x2) (RExec d st) x2) as [r' s'] eqn:Ec.
-      injection Hp as <- <- <- <-. exists (S (consume_fuel x2)). cbn [consume]. rewrite Er. auto. }
-  destruct Hcons as (n & Hn & ->).
+      injection Hp as <- <- <- <-. exists (S (consume_fuel x2)). eexists. cbn [consume]. rewrite Er. auto. }
+  destruct Hcons as (n & f & Hn & ->).
   cbn [chk_outs mon_outs]. rewrite chk_all_OTimer. cbn [cat2 is_empty mon_next].
   split; [exact Hc2|]. split; [|auto].
   eapply consume_ok; [exact Hi2| |exact Hn]. rewrite Ho2. exact Howes.
